@@ -50,6 +50,8 @@ def odd_programs(tier: str) -> List[str]:
         ["int unknown", "txn TypeEnum", "=="],
         ["txn OnCompletion", "int pay", "=="],
         ["txn ApplicationID", "int 18446744073709551615", "=="],
+    ]
+    named = [
         # named integer constants where a number is expected, every operator class
         ["global GroupSize", "int axfer", "<"],
         ["int pay", "txn GroupIndex", ">="],
@@ -59,6 +61,14 @@ def odd_programs(tier: str) -> List[str]:
     ]
     out: List[str] = []
     seen: Set[str] = set()
+    # named constants: each consumed by assert / bz / bnz / return (and the full layers in thorough)
+    for a in named:
+        body = "\n".join(a)
+        for tail in ("assert\nint 1\nreturn", "bz l\nint 1\nreturn\nl:\nint 0\nreturn", "bnz l\nint 0\nreturn\nl:\nint 1\nreturn", "return"):
+            out.append("#pragma version 8\n" + body + "\n" + tail + "\n")
+            seen.add(out[-1])
+    if tier != "quick":
+        odd = odd + named
     for s in spaces.layered(odd, odd[:3], tier, l2_size=2 if tier == "quick" else 3, l3=tier != "quick", max_subs=1):
         if s not in seen:
             seen.add(s)
@@ -77,7 +87,10 @@ def items(tier: str) -> List[Any]:
             if s not in seen:
                 seen.add(s)
                 progs.append(s)
-    for s in c02.structural(tier) + odd_programs(tier) + list(raw.dead_code(tier != "quick")):
+    structural = c02.structural(tier)
+    if tier == "quick":
+        structural = structural[::2]  # every second skeleton rendering (all of them in thorough)
+    for s in structural + odd_programs(tier) + list(raw.dead_code(tier != "quick")):
         if s not in seen:
             seen.add(s)
             progs.append(s)
